@@ -49,7 +49,7 @@ func checkC09(c caseC09) (Outcome, error) {
 	// A lopsided dash (`8:00- 9:00`) has no defined notation: any consistent reading is accepted.
 	want, matched := model.CanonRender(c.Doc), false
 	for rule := 0; rule < 4 && !matched; rule++ {
-		if w := model.CanonRenderBy(c.Doc, rule); strings.Trim(o1, "\n") == strings.Trim(w, "\n") {
+		if w := model.CanonRenderBy(c.Doc, rule); normShould(strings.Trim(o1, "\n")) == normShould(strings.Trim(w, "\n")) {
 			matched = true
 			if rule != 0 {
 				out.Label("lopsided-dash-read-differently")
@@ -87,6 +87,29 @@ func checkC09(c caseC09) (Outcome, error) {
 	}
 	out.NonTrivial = len(c.Doc.Records) > 0 && text != model.CanonRender(c.Doc)
 	return out, nil
+}
+
+// normShould removes what the property leaves open about the spelling of a should-total on a
+// headline: an explicit plus sign (`(+8h!)`) and a should-total of zero (`(0m!)`, which klog omits).
+// The values are compared through the re-parse (compareDoc).
+func normShould(text string) string {
+	lines := strings.Split(text, "\n")
+	for i, l := range lines {
+		if l == "" || l[0] == ' ' || l[0] == '\t' {
+			continue
+		}
+		k := strings.Index(l, " (")
+		if k < 0 || !strings.HasSuffix(l, "!)") {
+			continue
+		}
+		lit := strings.TrimPrefix(l[k+2:len(l)-2], "+")
+		if lit == "0m" || lit == "-0m" || lit == "0h" || lit == "0h0m" {
+			lines[i] = l[:k]
+		} else {
+			lines[i] = l[:k+2] + lit + "!)"
+		}
+	}
+	return strings.Join(lines, "\n")
 }
 
 func TestC09(t *testing.T) {
